@@ -444,6 +444,40 @@ def run(prog: Program, chk: Check):
                 U.decide(okl, fkey(f, f"liveness-before:{norm(c)}"), where(f, c), "liveness of the module is re-established in this iteration before the send",
                          f"{f.qual}: `{norm(c)}` may address a module that an earlier iteration's failure handling already removed (closed socket -> OSError, not a ConnectionError)")
 
+    # the service loop itself: a module removed earlier in the same round (nested removal while processing another
+    # client's frame) must not be read from: liveness of the source is re-established per iteration
+    rung = C.build(runf.node)
+    rungs = flow.guard_states(rung)
+    reads = [n for n in rung.nodes if any(self_call("read_message")(c) for c in node_calls(n))]
+    if len(reads) != 1:
+        raise AnalysisError("anchor vanished: read_message call in run()")
+    rc = [c for c in node_calls(reads[0]) if self_call("read_message")(c)][0]
+    sock = norm(rc.args[0]) if rc.args else "?"
+    cmr = guards.copy_map(runf.node)
+    # the liveness test must be evaluated inside the loop that services the ready set (facts are killed when the loop
+    # variable is rebound, so a fact that survives to the read was established in this iteration)
+    lp_anc = [a for a in ancestors(rc) if isinstance(a, ast.For)]
+    goals = [f"self.modules.get({sock})", f"{sock} in self.modules"]
+    for nm, rhs in cmr.items():
+        pass
+    okl = False
+    for p_ in [rungs.at(reads[0])]:
+        for gl in goals:
+            if not guards.any_path_implies([[(guards.subst(e, {}), pol) for e, pol in path] for path in p_], guards.parse(gl)):
+                okl = True
+        # `src = self.modules.get(sock); if src:` form
+        for path in p_:
+            pass
+    if not okl:
+        # accept a truthiness fact on a local defined in the same iteration as self.modules.get(<sock>)
+        for d in walk_local(runf.node):
+            if isinstance(d, ast.Assign) and isinstance(d.value, ast.Call) and norm(d.value) == f"self.modules.get({sock})" and lp_anc and any(x is lp_anc[0] for x in ancestors(d)):
+                v = path_of(d.targets[0])
+                if v and not guards.any_path_implies(rungs.at(reads[0]), guards.parse(v)):
+                    okl = True
+    U.decide(okl and bool(lp_anc), fkey(runf, "service-loop-liveness"), where(runf, rc), "each ready socket is looked up in the table again right before it is read",
+             f"run(): `{norm(rc)}` can read from a connection whose module an earlier frame of the same round already removed (closed socket -> OSError EBADF, not a ConnectionError)")
+
     # ---- H handler coverage -------------------------------------------------------------------------------------------------
     H = chk.rule("C03-H", "every socket read/write on a client connection is covered by a ConnectionError handler that removes the module", 5,
                  "an uncovered reset on one client's socket ends run() for everybody")
